@@ -399,6 +399,90 @@ def run_case(ctx, mr, case, instances=None):
     return guarded or cold
 
 
+def open_race_probe(ctx):
+    """two threads each OPEN their first handle on one base file at the same moment (a reader without a live handle yet: RomFS files,
+    plain windows), then use them.  The switch is forced at the one place where it matters: the moment a window finds no lock registered
+    for its base file and makes one.  Whatever the order, the two handles must exclude each other afterwards: a read of one cannot be
+    torn by a complete seek+read of the other."""
+    import threading
+    import pyctr.fileio as F
+    from pyctr.type.romfs import RomFSReader
+    im = CC.images()
+    for kind in ('windows', 'romfs'):
+        data = bytes((i * 13 + 5) & 0xFF for i in range(0x400)) if kind == 'windows' else im['romfs']
+        barrier = threading.Barrier(2)
+        state = dict(tear=None)
+
+        class Base(io.BytesIO):
+            def seek(self, off, whence=0):
+                r = super().seek(off, whence)
+                hook = state['tear']
+                if hook is not None and threading.current_thread().name == 'opener-0':
+                    state['tear'] = None
+                    hook()
+                return r
+
+        def make_lock():
+            try:
+                barrier.wait(timeout=0.4)        # both threads are now between "no lock registered" and "register mine"
+            except threading.BrokenBarrierError:
+                pass
+            return TT._real_Lock()
+        base = Base(data)
+        reader = RomFSReader(base) if kind == 'romfs' else None
+        handles = [None, None]
+        saved = F.Lock
+        F.Lock = make_lock
+        try:
+            def opener(i):
+                handles[i] = (F.SubsectionIO(base, 0x10 + 0x100 * i, 0x100) if kind == 'windows' else reader.openbin(['/a.txt', '/d/b.bin'][i]))
+            ts = [threading.Thread(target=opener, args=(i,), name=f'opener-{i}') for i in range(2)]
+            for t in ts:
+                t.start()
+            for t in ts:
+                t.join(5)
+        finally:
+            F.Lock = saved
+        case = dict(kind='open-race', handles=kind)
+        ctx.case(case)
+        ctx.stat('open_race_probes')
+        if None in handles:
+            ctx.diff('oracle', f'open-race:{kind}', case, 'two handles', 'opening did not finish', f'{kind}: two threads opening their first handle on one file at the same time did not both finish')
+            continue
+        h0, h1 = handles
+        want0 = (h0.seek(0), h0.read(8))[1]
+        h1.seek(0)
+        want1 = h1.read(200)[-8:]
+        done = threading.Event()
+
+        def other():
+            h1.seek(192)
+            state['got1'] = h1.read(8)
+            done.set()
+
+        def tear():
+            t = threading.Thread(target=other, name='other')
+            t.start()
+            done.wait(0.4)            # with one shared lock the other thread waits for us instead, and this times out
+            state['t'] = t
+        h0.seek(0)
+        state['tear'] = tear
+
+        def first():
+            state['got0'] = h0.read(8)
+        t0 = threading.Thread(target=first, name='opener-0')
+        t0.start()
+        t0.join(5)
+        if state.get('t'):
+            state['t'].join(5)
+        if state.get('got0') != want0 or state.get('got1') != want1:
+            ctx.diff('oracle', f'open-race:{kind}', case, want0.hex(), (state.get('got0') or b'').hex(),
+                     f'{kind}: two handles opened by two threads at the same time (each finding no lock registered for the file yet) do not exclude '
+                     f'each other: a read through one was torn by a seek+read through the other')
+        if reader is not None:
+            reader.close()
+
+
 def instance_text(instances):
     lines = ['(* generated by harness/checks/c15.py: the programs traced from the real code in this run *)',
              'From Coq Require Import List ZArith Bool Arith.', 'Import ListNotations.', 'From Pyctr Require Import Model.Sched.', '']
@@ -464,7 +548,11 @@ def run(ctx):
     finally:
         mr.close()
         TT.uninstall()
-        pyenv.uninstall_fake_boot9()
+    try:
+        open_race_probe(ctx)
+    except Exception as ex:
+        ctx.diff('oracle', 'harness:open-race', dict(kind='open-race'), 'probe runs', pyenv.errname(ex), f'open-race probe: {pyenv.errname(ex)}: {ex}')
+    pyenv.uninstall_fake_boot9()
     proof = prove('C15', [], ['C15_props'], static_deps=['Proofs/SchedProofs.v'],
                   extra_gen=[('C15_instances', instance_text(instances)), ('C15_insts', props_text(instances))])
     if unguarded and proof.ok:
